@@ -17,7 +17,7 @@ type c16 struct{}
 func (c16) ID() string    { return "C16" }
 func (c16) Level() string { return "fault_enumeration" }
 func (c16) Rule() string {
-	return "(thorough: four keys) an env file shared by two services whose earlier files define the referenced variable differently (2 declaration orders x discard x 4 map rotations); three environment keys at once, each {valueless and defined by the project environment with its own value, valueless and undefined, given a value, absent} x {list, mapping} x {default load, normalisation skipped, explicit WithServicesEnvironmentResolved}; one key in every subset of the layers {project environment, env_file 1, 2, 3} x {no environment entry, with value, empty value, without value} x {list, mapping} spelling; two-key cross references (value ${K2} in env file j with K2 defined in exactly one of project environment / earlier file / earlier line / later file); every {present, absent} x {required, optional} state vector of the three env files x 5 spellings of the flag (implied, boolean, quoted text, variable, variable default); discard on/off; the same lattice for label_file 1..2 x labels; every case loaded through the real loader and compared with the layering reference. distinct = distinct (layer subset, outcome) pairs"
+	return "(thorough: four keys) an env file shared by two services whose earlier files define the referenced variable differently (2 declaration orders x discard x 4 map rotations); three environment keys at once, each {valueless and defined by the project environment with its own value, valueless and undefined, given a value, absent} x {list, mapping} x {default load, normalisation skipped, explicit WithServicesEnvironmentResolved}; one key in every subset of the layers {project environment, env_file 1, 2, 3} x {no environment entry, with value, empty value, without value} x {list, mapping} spelling; two-key cross references (value ${K2} in env file j with K2 defined in exactly one of project environment / earlier file / earlier line / later file); every {present, absent} x {required, optional} state vector of the three env files x 5 spellings of the flag (implied, boolean, quoted text, variable, variable default); discard on/off, and the service disabled by a profile at load and enabled afterwards (WithServicesEnabled); the same lattice for label_file 1..2 x labels; every case loaded through the real loader and compared with the layering reference. distinct = distinct (layer subset, outcome) pairs"
 }
 func (c16) Assumptions() []string {
 	return []string{
@@ -164,9 +164,15 @@ func (c16) Run(c *core.Ctx) {
 		for fmask := 0; fmask < 8; fmask++ {
 			for envKind := 0; envKind < 4; envKind++ { // 0 none 1 value 2 empty 3 valueless
 				for spelling := 0; spelling < 2; spelling++ {
-					for discard := 0; discard < 2; discard++ {
+					for discard := 0; discard < 3; discard++ {
+						// discard 2: the service is behind a profile, disabled by the load, and enabled afterwards with
+						// WithServicesEnabled (which resolves its environment and discards the file references)
+						later := discard == 2
 						pe, fmask, envKind, spelling, discard := pe, fmask, envKind, spelling, discard
 						id := fmt.Sprintf("env/pe%d/f%d/e%d/sp%d/d%d", pe, fmask, envKind, spelling, discard)
+						if later {
+							discard = 1
+						}
 						c.Do(id, func() core.Outcome {
 							files := map[string]string{}
 							for i := 0; i < 3; i++ {
@@ -178,6 +184,9 @@ func (c16) Run(c *core.Ctx) {
 							}
 							var sb strings.Builder
 							sb.WriteString("services:\n  s:\n    image: i\n    env_file: [./e1.env, ./e2.env, ./e3.env]\n")
+							if later {
+								sb.WriteString("    profiles: [off]\n")
+							}
 							if envKind != 0 {
 								sb.WriteString("    environment:\n")
 								switch {
@@ -207,6 +216,13 @@ func (c16) Run(c *core.Ctx) {
 							root := s.Materialise()
 							p, err := s.LoadAt(root)
 							sample := map[string]any{"case": id, "files": files, "env": env}
+							if err == nil && later {
+								err = core.Try(func() error {
+									var e error
+									p, e = p.WithServicesEnabled("s")
+									return e
+								})
+							}
 							if err != nil {
 								return core.Outcome{Class: "err", Sample: sample, Viol: &core.Violation{Key: "env:spurious-error", Msg: id + ": " + err.Error()}}
 							}
